@@ -2,6 +2,8 @@
 
 from __future__ import annotations
 
+from ..vloop import texc
+
 import types
 from typing import Any
 
@@ -67,7 +69,7 @@ def make(depth: int, rnd: float):
                 r = Routing(xknx, None, confirmations.append, local_ip="192.168.1.2")
                 t0 = w.spawn(r.connect(), name="harness-connect")
                 loop.settle()
-                if not (t0.done() and t0.exception() is None):
+                if not (t0.done() and texc(t0) is None):
                     return [("harness:connect-failed", repr(t0))]
                 tr = next(e for e in loop.datagram_endpoints if e.kind == "udp")
                 busy: list[tuple[float, int, int]] = []
